@@ -289,6 +289,41 @@ def m_trim_end(ex, st, callee, args):
     return out
 
 
+# `{:?}` of a str: str::escape_debug.  Characters that Rust prints as \u{..} (not printable / grapheme-extending): an
+# under-approximation of that set is enough here - it is only reached when the code under test switched to Debug formatting,
+# the reader rejects every \u escape whatever its digits are, and every counterexample is replayed natively.
+DEBUG_UNICODE_ESCAPED = [(0x01, 0x08), (0x0B, 0x0C), (0x0E, 0x1F), (0x7F, 0x9F), (0xA0, 0xA0), (0xAD, 0xAD), (0x300, 0x36F), (0x1680, 0x1680),
+                         (0x2000, 0x200F), (0x2028, 0x202F), (0x205F, 0x2064), (0x3000, 0x3000), (0xFE00, 0xFE0F), (0xFEFF, 0xFEFF), (0xE0100, 0xE01EF)]
+
+
+def debug_escape_forks(s_):
+    """-> list of (condition, chars) for the Debug rendering of a symbolic-char string, surrounding quotes included"""
+    import itertools
+    if len(s_.fields) > 3:
+        raise Inconclusive("Debug formatting of a string longer than 3 symbolic characters")
+    simple = {0x22: '\\"', 0x5C: "\\\\", 0x0A: "\\n", 0x0D: "\\r", 0x09: "\\t", 0x00: "\\0"}
+    per_char = []
+    for c in s_.fields:
+        alts = []
+        others = []
+        for code, text in simple.items():
+            alts.append((c.e == code, [ch(ord(x)) for x in text]))
+            others.append(c.e != code)
+        uni = z3.Or(*[(c.e == lo) if lo == hi else z3.And(z3.UGE(c.e, lo), z3.ULE(c.e, hi)) for lo, hi in DEBUG_UNICODE_ESCAPED])
+        alts.append((uni, [ch(ord(x)) for x in "\\u{0}"]))
+        alts.append((z3.And(z3.Not(uni), *others), [c]))
+        per_char.append(alts)
+    out = []
+    for combo in itertools.product(*per_char):
+        conds = [c for c, _ in combo]
+        chars = [ch(0x22)]
+        for _, cs in combo:
+            chars += cs
+        chars.append(ch(0x22))
+        out.append((z3.And(*conds) if conds else z3.BoolVal(True), chars))
+    return out
+
+
 def decode_template(data):
     """rustc's packed format template: <len><literal bytes> | 0xC0 (next argument) | 0x00 (end)"""
     b = literal_chars(data)
@@ -321,26 +356,35 @@ def m_format(ex, st, callee, args):
         tmpl = decode_template(fargs[0].data)
         arr = ex.deref(st, fargs[1])
         items = list(arr.fields)
-        chars = []
+        variants = [(z3.BoolVal(True), [])]      # (condition, chars so far): Debug formatting forks on character classes
         for piece in tmpl:
             if piece[0] == "lit":
-                chars += [ch(ord(c)) for c in piece[1]]
+                variants = [(c, cs + [ch(ord(x)) for x in piece[1]]) for c, cs in variants]
                 continue
             if not items:
                 raise Inconclusive("format: more placeholders than arguments")
             it = items.pop(0)
-            if not (isinstance(it, Opaque) and it.tag == "fmt" and "new_display" in it.data[0]):
+            if not (isinstance(it, Opaque) and it.tag == "fmt" and ("new_display" in it.data[0] or "new_debug" in it.data[0])):
                 raise Inconclusive("opaque")
             v = it.data[1][0]
             val = ex.deref(st, v)
+            if "new_debug" in it.data[0]:
+                s = to_sstr(ex, st, v)
+                if s is None:
+                    raise Inconclusive("opaque")
+                forks = debug_escape_forks(s)
+                variants = [(z3.And(c, fc), cs + fcs) for c, cs in variants for fc, fcs in forks]
+                continue
             if isinstance(val, Sc) and val.ty == "char":
-                chars.append(val)
+                variants = [(c, cs + [val]) for c, cs in variants]
                 continue
             s = to_sstr(ex, st, v)
             if s is None:
                 raise Inconclusive("opaque")
-            chars += list(s.fields)
-        return [(None, sstr(chars))]
+            variants = [(c, cs + list(s.fields)) for c, cs in variants]
+        if len(variants) == 1:
+            return [(None, sstr(variants[0][1]))]
+        return [(c, sstr(cs)) for c, cs in variants]
     except Inconclusive:
         return m_opaque_fmt(ex, st, callee, args)
 
